@@ -275,6 +275,17 @@ class Ctx:
             self.cov["axioms_print_assumptions"] = sorted(set(self.cov.get("axioms_print_assumptions", [])) | set(axioms))
             self.cov["closed_theorems"] = self.cov.get("closed_theorems", 0) + sum(
                 1 for t in assm.values() if "Closed under the global context" in t)
+            if not self.quick:
+                # thorough tier: independent re-check of the compiled closure with coqchk
+                rc, out = sh(["timeout", "1500", "coqchk", "-o", "-silent", "-Q", COQ, "AV", module],
+                             cwd=COQ, timeout=1600)
+                summ = out[out.find("CONTEXT SUMMARY"):] if "CONTEXT SUMMARY" in out else out[-1500:]
+                self.cov["coqchk"] = {"module": module, "rc": rc, "summary": summ.strip()[:3000]}
+                self.cov["checker_cmd"] += f" ; coqchk -o -Q {COQ} AV {module}"
+                if rc != 0:
+                    info["build_ok"] = False
+                    info["log_tail"] = "coqchk failed:\n" + out[-3000:]
+                    return False, info
             return True, info
         return False, info
 
